@@ -220,6 +220,33 @@ func (g *c03gen) program() []ref.Expr {
 		mk("cl0")
 		prog = append(prog, &ref.Print{E: &ref.Call{Callee: &ref.Var{Name: "cl0"}}})
 	}
+	if g.rng.Intn(6) == 0 {
+		// objects expanded with ** are only read: the same object gives the same keywords in every later call,
+		// whatever other ** operand stood next to it before; many positional arguments (\9, \10, …)
+		g.features["dstar-operands-reused"] = true
+		prog = append(prog, &ref.Assign{Name: "ob2", E: &ref.ObjLit{Keys: []string{"kq", "kr"}, Vals: []ref.Expr{&ref.Int{V: g.rng.Intn(90)}, &ref.Int{V: g.rng.Intn(90)}}}})
+		prog = append(prog, &ref.Assign{Name: "ob3", E: &ref.ObjLit{Keys: []string{"kz"}, Vals: []ref.Expr{&ref.Int{V: g.rng.Intn(90)}}}})
+		fq := &ref.Func{Params: []string{"xa"}, Kw: []ref.KwParam{{Name: "kq", Default: 0}, {Name: "kz", Default: 1}},
+			Body: []ref.Expr{&ref.ArrLit{Elems: []ref.Expr{&ref.Var{Name: "xa"}, &ref.Var{Name: "kq"}, &ref.Var{Name: "kz"}, &ref.ArgRef{Kind: "\\_"}}}}}
+		prog = append(prog, &ref.Assign{Name: "fq", E: fq})
+		ds := func(n string) ref.Arg { return ref.Arg{Kind: "dstar", E: &ref.Var{Name: n}} }
+		one := ref.Arg{Kind: "pos", E: &ref.Int{V: 1}}
+		for _, args := range [][]ref.Arg{{one, ds("ob2"), ds("ob3")}, {one, ds("ob2")}, {one, ds("ob3"), ds("ob2")}, {one, ds("ob3")}, {one}} {
+			if g.rng.Intn(4) != 0 {
+				prog = append(prog, &ref.Print{E: &ref.Call{Callee: &ref.Var{Name: "fq"}, Args: args}})
+			}
+		}
+		prog = append(prog, &ref.Print{E: &ref.ArrLit{Elems: []ref.Expr{&ref.Var{Name: "ob2"}, &ref.Var{Name: "ob3"}}}})
+		// 9–13 positional arguments read back through \N
+		na := 9 + g.rng.Intn(5)
+		var many []ref.Arg
+		for i := 1; i <= na; i++ {
+			many = append(many, ref.Arg{Kind: "pos", E: &ref.Int{V: i * 3}})
+		}
+		fm := &ref.Func{Body: []ref.Expr{&ref.ArrLit{Elems: []ref.Expr{&ref.ArgRef{Kind: "\\N", N: 8}, &ref.ArgRef{Kind: "\\N", N: 9}, &ref.ArgRef{Kind: "\\N", N: na}, &ref.ArgRef{Kind: "\\N", N: 1 + g.rng.Intn(na)}}}}}
+		prog = append(prog, &ref.Assign{Name: "fm", E: fm})
+		prog = append(prog, &ref.Print{E: &ref.Call{Callee: &ref.Var{Name: "fm"}, Args: many}})
+	}
 	for i := 0; i < nst; i++ {
 		r := g.rng.Intn(13)
 		if focus && g.rng.Intn(2) == 0 {
